@@ -13,4 +13,5 @@ class Number(internal.SingleValueRawTokenModel[decimal.Decimal]):
     
     @classmethod
     def _format_value(cls, value: decimal.Decimal) -> str:
-        return str(value)
+        # str() switches to scientific notation (1E-7, 1E+2), which is not a NUMBER.
+        return format(value, 'f')
